@@ -94,6 +94,61 @@ def clifford_angle(rng):
     return rng.randint(-6, 6) * math.pi / 2 + rng.choice([0.0, 0.0, 0.0, 1e-12, -1e-12])
 
 
+STRUCTURES = ["diagonal", "oracle", "permutation", "monomial", "controlled-U", "tensor-product", "real-orthogonal", "identity"]
+
+
+def structured_unitary(rng, m, label=None):
+    """(label, 2^m x 2^m unitary) with EXACT structure (exact zeros / ones): the shapes adapters may special-case.  Local bit i of the
+    matrix index belongs to target_indices[i]; every shape is, in general, not invariant under reversing the targets."""
+    import numpy as np
+
+    from oracle import dense
+
+    dim = 1 << m
+    label = label or rng.choice(STRUCTURES)
+    if label == "diagonal":  # generic phases
+        return label, np.diag(np.exp(1j * np.array([rng.uniform(-3.1, 3.1) for _ in range(dim)])))
+    if label == "oracle":  # phase oracle marking one basis state whose bit string is not a palindrome (when there is one)
+        cand = [b for b in range(dim) if b != int(format(b, f"0{m}b")[::-1], 2)] or list(range(dim))
+        d = np.ones(dim, dtype=complex)
+        d[rng.choice(cand)] = -1
+        return label, np.diag(d)
+    if label in ("permutation", "monomial"):
+        p = list(range(dim))
+        rng.shuffle(p)
+        mat = np.zeros((dim, dim), dtype=complex)
+        for i, j in enumerate(p):
+            mat[j, i] = 1 if label == "permutation" else np.exp(1j * rng.uniform(-3.1, 3.1))
+        return label, mat
+    if label == "controlled-U":  # identity unless local bit `cb` is 1; a random unitary on the other bits then
+        if m == 1:
+            return label, np.diag([1, np.exp(1j * rng.uniform(-3.1, 3.1))])
+        cb = rng.randrange(m)
+        u = dense.random_unitary(rng, dim >> 1)
+        mat = np.zeros((dim, dim), dtype=complex)
+        rest = [b for b in range(m) if b != cb]
+
+        def sub(i):
+            return sum(((i >> b) & 1) << k for k, b in enumerate(rest))
+
+        for i in range(dim):
+            for j in range(dim):
+                if (i >> cb) & 1 != (j >> cb) & 1:
+                    continue
+                mat[i, j] = u[sub(i), sub(j)] if (i >> cb) & 1 else (1 if i == j else 0)
+        return label, mat
+    if label == "tensor-product":  # distinct factors, local bit 0 = rightmost factor
+        mat = np.eye(1, dtype=complex)
+        for _ in range(m):
+            mat = np.kron(dense.random_unitary(rng, 2), mat)
+        return label, mat
+    if label == "real-orthogonal":
+        z = np.array([[rng.gauss(0, 1) for _ in range(dim)] for _ in range(dim)])
+        q, r = np.linalg.qr(z)
+        return label, (q * np.sign(np.diag(r))).astype(complex)
+    return "identity", np.eye(dim, dtype=complex)
+
+
 def add_kind(rng, c, kind, clifford=False):
     """append one gate of `kind` to c (nothing when the register is too small)"""
     from quri_parts.circuit import gates
@@ -101,10 +156,14 @@ def add_kind(rng, c, kind, clifford=False):
     from oracle import dense
 
     n = c.qubit_count
-    if kind in ("UM3", "UM4"):
+    if kind in ("UM1", "UM2", "UM3", "UM4") and (kind in WIDE or rng.random() < 0.5):
         m = int(kind[2])
         if n >= m:
-            c.add_gate(gates.UnitaryMatrix(rng.sample(range(n), m), dense.random_unitary(rng, 1 << m).tolist()))
+            mat = structured_unitary(rng, m)[1] if rng.random() < 0.6 else dense.random_unitary(rng, 1 << m)
+            ts = rng.sample(range(n), m)
+            if rng.random() < 0.25:
+                ts = sorted(ts, reverse=True)
+            c.add_gate(gates.UnitaryMatrix(ts, mat.tolist()))
         return
     if clifford and kind in ROTS + ["PauliRotation"]:
         a = [clifford_angle(rng) for _ in range(3)]
@@ -388,6 +447,16 @@ def judge(ctx: Ctx, backend, kind, circ, form, arg, label, call, uni, rev, tol, 
     ctx.count(f"{backend}.reverse", "ok" if d2 <= tol else "MISMATCH")
     if d2 > tol:
         bads = [kind] if kind != "circuit" else bad_kinds_rev(call, rev, circ, tol)
+        if "." in kind and kind.startswith("UM"):
+            # structured matrix: listed round-trip findings are keyed by width (UM2, UM3, ...) and are about the target order, so a
+            # matrix that is invariant under reversing its targets keeps its own (fresh) key
+            import numpy as np
+
+            from oracle import backends as B
+
+            mat = np.array(circ.gates[0].unitary_matrix, dtype=complex)
+            symmetric = np.allclose(B.big_to_little(mat, len(circ.gates[0].target_indices)), mat, atol=1e-12)
+            bads = [kind if symmetric and d2 >= 1e-4 else kind.split(".")[0]]
         for bad in bads:
             detail = ".rounding" if d2 < 1e-4 else ""
             ctx.witness(finding_key(backend, "roundtrip", bad, detail),
@@ -435,6 +504,21 @@ def validate(ctx: Ctx, budget_s: float):
                     # UM4 is there for the adapters' width limits; its round trip adds nothing to UM3's
                     judge(ctx, backend, kind, c, "QuantumCircuit", c, label, call, uni, None if kind == "UM4" else rev, tol,
                           (FWD_SUPPORTED[backend] | plus) - minus)
+        # structured UnitaryMatrix gates (the shapes a converter may special-case; random dense unitaries never have them) on 1..4 targets,
+        # targets descending / non-contiguous / shuffled in a 5-qubit register
+        from quri_parts.circuit import QuantumCircuit, gates
+
+        for m in (1, 2, 3, 4):
+            for slabel in STRUCTURES:
+                for order in ("descending", "shuffled") if ctx.quick() else ("descending", "shuffled", "ascending", "shuffled", "shuffled"):
+                    ts = rng.sample(range(5), m)
+                    ts = sorted(ts, reverse=True) if order == "descending" else sorted(ts) if order == "ascending" else ts
+                    c = QuantumCircuit(5)
+                    c.add_gate(gates.UnitaryMatrix(ts, structured_unitary(rng, m, slabel)[1].tolist()))
+                    ctx.evaluations += 1
+                    ctx.count("C03.structured-UM", f"UM{m}.{slabel}")
+                    judge(ctx, backend, f"UM{m}.{slabel}", c, "QuantumCircuit", c, "default", variants[0][1], uni, None if m == 4 else rev, tol,
+                          FWD_SUPPORTED[backend])
         if backend == "stim":  # rotations at Clifford angles are part of the stim vocabulary
             for kind in ROTS + ["PauliRotation"]:
                 for _ in range(ctx.n(3, 12)):
@@ -458,7 +542,7 @@ def validate(ctx: Ctx, budget_s: float):
                 kinds = sorted(sup - set(WIDE)) + ROTS + ["PauliRotation"]
                 c = gen_circuit(rng, rng.randint(1, 4), rng.randint(1, 8), kinds, clifford=True)
             else:
-                kinds = sorted(sup - set(WIDE)) if r < 0.7 else FULL
+                kinds = sorted(sup - {"UM4"}) if r < 0.7 else FULL + ["UM3"]
                 c = gen_circuit(rng, rng.randint(1, 4), rng.randint(1, 7), kinds)
             if not c.gates:  # cirq / braket cannot even name the register of an empty circuit
                 continue
@@ -1102,12 +1186,13 @@ def native_specs(backend, rng, n, k):
             ps = [rng.choice([-3, 1, 5, -7] if g == "ISWAPpow" else [-1, -1, 3, -3, 5, 1, -1.0, 3.0])]
         elif g in ("CZfrac", "generic:CXPow-fractional"):
             ps = [rng.choice([0.5, -0.5, 0.25, 1.5, round(rng.uniform(-0.9, 0.9), 3) or 0.3])]
+        mat = lambda m: structured_unitary(rng, m)[1] if rng.random() < 0.5 else dense.random_unitary(rng, 1 << m)  # noqa: E731
         if g in ("dense1", "cdense", "unitary1", "matrix1", "Unitary1qBox"):
-            extra = dense.random_unitary(rng, 2)
+            extra = mat(1)
         elif g in ("dense2", "unitary2", "matrix2", "Unitary2qBox"):
-            extra = dense.random_unitary(rng, 4)
+            extra = mat(2)
         elif g in ("unitary3", "Unitary3qBox"):
-            extra = dense.random_unitary(rng, 8)
+            extra = mat(3)
         elif g in ("pauli", "paulirot"):
             extra = [rng.randint(1, 3), rng.randint(1, 3)]
         specs.append((g, q, ps, extra))
